@@ -405,6 +405,14 @@ func catchGeneratedDataset(p *prng) (metaPath string, cleanup func(), desc J) {
 		if p.chance(0.15) {
 			c = 0
 		}
+		if p.chance(0.2) {
+			// tenths of a cent that are exact in binary: the value sits exactly half-way between two cents, so that
+			// activation (round(+c)) and deactivation (round(-c)) must round symmetrically
+			c = float64(int64(c)) + []float64{0.125, 0.375, 0.625, 0.875}[p.intn(4)]
+		}
+		if p.chance(0.12) {
+			c = -c // the loader accepts a negative cost (a subsidy / a gain): shares and totals may go negative
+		}
 		return c
 	}
 	gid := 1
